@@ -11,6 +11,7 @@ import threading
 import time
 import typing as tp
 
+from xonsh._verif import sched_point
 from xonsh.built_ins import XSH
 from xonsh.cli_utils import Annotated, Arg, ArgParserAlias
 from xonsh.completers.tools import RichCompletion
@@ -87,6 +88,7 @@ def proc_untraced_waitpid(proc, hang, task=None, raise_child_process_error=False
         """
         opt = os.WUNTRACED if hang else (os.WUNTRACED | os.WNOHANG)
         wpid, wcode = os.waitpid(proc.pid, opt)
+        sched_point("jobs.proc_untraced_waitpid.after_waitpid")
     except ChildProcessError:
         wpid, wcode = 0, 0
         if raise_child_process_error:
